@@ -274,8 +274,31 @@ static bool lzip_header_ok(const std::vector<uint8_t> &f) { uint64_t d; return f
 static bool alone_header_ok(const std::vector<uint8_t> &f) { unsigned a, b, cc; return f.size() >= 13 && ref::props_decode(f[0], a, b, cc); }
 
 // ---------------------------------------------------------------- liblzma side
+static lzma_ret init_dec_kind(lzma_stream *s, int dec, uint32_t flags) {
+	switch (dec) {
+	case D_ALONE: return lzma_alone_decoder(s, UINT64_MAX);
+	case D_LZIP: return lzma_lzip_decoder(s, UINT64_MAX, flags);
+	case D_STREAM: return lzma_stream_decoder(s, UINT64_MAX, flags);
+	case D_AUTO: return lzma_auto_decoder(s, UINT64_MAX, flags);
+	default: { lzma_mt mt; memset(&mt, 0, sizeof mt); mt.flags = flags; mt.threads = 2; mt.timeout = 0; mt.memlimit_threading = UINT64_MAX; mt.memlimit_stop = UINT64_MAX; return lzma_stream_decoder_mt(s, &mt); }
+	}
+}
+// "warm handle" (a quarter of the cases, last case byte): the lzma_stream has just decoded another file of the suite with the same
+// kind of decoder - completely or half - and is re-initialised without lzma_end(), as xz and lzmadec do for the next operand
+static unsigned g_warm = 0;
+static void warm_up(lzma_stream *s, int dec, uint32_t flags) {
+	static const char *const lzmas[] = {"good-known_size-without_eopm.lzma", "good-unknown_size-with_eopm.lzma", "good-known_size-with_eopm.lzma"};
+	const char *name = dec == D_ALONE ? lzmas[g_warm % 3] : dec == D_LZIP ? "good-1-v1.lz" : (dec == D_AUTO ? (g_warm % 3 == 0 ? lzmas[(g_warm >> 2) % 3] : g_warm % 3 == 1 ? "good-2-v1-v1.lz" : "good-1-check-crc64.xz") : "good-1-check-crc64.xz");
+	const cm::TestFile *tf = nullptr; for (auto &t : cm::test_files()) if (t.name == name) tf = &t;
+	if (!tf || init_dec_kind(s, dec, flags) != LZMA_OK) return;
+	drv::Opts o; o.out_cap = 1u << 20; if (dec == D_STREAM_MT) o.idle_limit = 1u << 30; if (g_warm & 8) o.final_action = LZMA_RUN;
+	(void)drv::run(s, tf->data.data(), (g_warm & 8) ? tf->data.size() / 2 : tf->data.size(), drv::Schedule(), o);
+	count("warm_decoder_handle");
+}
+
 static drv::Result run_dec(int dec, uint32_t flags, const std::vector<uint8_t> &f, const drv::Schedule &sch, lzma_action fin) {
 	lzma_stream s = LZMA_STREAM_INIT; s.allocator = AL(); lzma_ret r;
+	if (g_warm) warm_up(&s, dec, flags);
 	drv::Opts o; o.final_action = fin; o.out_cap = 8u << 20;
 	switch (dec) {
 	case D_ALONE: r = lzma_alone_decoder(&s, UINT64_MAX); break;
@@ -399,6 +422,7 @@ static void compare_auto(Fmt f, uint32_t flags, bool finish, const std::vector<u
 extern "C" int LLVMFuzzerTestOneInput(const uint8_t *data, size_t size) {
 	begin_case("C16");
 	Case c(data, size);
+	g_warm = size && (data[size - 1] & 3) == 3 ? 1 + (data[size - 1] >> 2) : 0;
 	// ---- file
 	uint8_t kb = c.byte(); Kind kind = kb < 95 ? K_ALONE : (kb < 195 ? K_LZIP : (kb < 245 ? K_XZ : K_GARBAGE));
 	Built B = kind == K_ALONE ? build_alone(c) : (kind == K_LZIP ? build_lzip(c) : (kind == K_XZ ? build_xz(c) : build_garbage(c)));
